@@ -17,6 +17,12 @@ Closes the two items that `Proofs/Props/C14.lean` lists as "not proved":
   up to an explicit `O(mesh²)` error, never exceeds it, and every layer thickness lies between
   the two one-sided bounds.
 
+* (G) the general statement of the property: for merely continuous integrands `integrate_column`
+  converges to the integral (G1); for arbitrary continuous profiles `vmr(p) ∈ [0,1)`, `T(p) > 0`
+  the hydrostatic and the general form of `integrate_water_vapor` converge to the same value when
+  `z` is the hydrostatic height of the moist column (G2, `C14_iwv_forms_tendsto_general`), and
+  `pressure2height` converges to the hydrostatic integral `∫ R_d T/(g p) dp` (G3).
+
 `Col.*` is the hand-written array model, `TR.*`/`C.*` the translated scalar functions and
 constants.  Helper lemmas: `Proofs/Lemmas/Refine.lean`.
 -/
@@ -632,13 +638,494 @@ example := C14_p2h_isothermal_layers 250 (by norm_num) [1000, 900, 700]
 example := C14_p2h_isothermal_tendsto_linspace 250 100000 30000 (by norm_num) (by norm_num)
   (by norm_num)
 
+/-! ## (G) general profiles: merely continuous integrands, arbitrary `vmr(p)` and `T(p)`
+
+The theorems of (R1)–(R3) give explicit `O(mesh²)` bounds for smooth integrands resp. the
+isothermal well-mixed column.  Here: convergence (no rate) for every profile the property allows. -/
+
+private theorem linspace_mesh_tendsto (a b : ℝ) :
+    Tendsto (fun n : ℕ => mesh (linspace a b (n + 1))) atTop (𝓝 0) := by
+  have h0 : Tendsto (fun n : ℕ => |b - a| / ((n + 1 : ℕ) : ℝ)) atTop (𝓝 0) :=
+    (tendsto_const_div_atTop_nhds_zero_nat |b - a|).comp (tendsto_add_atTop_nat 1)
+  exact squeeze_zero (fun n => mesh_nonneg _) (fun n => linspace_mesh_le a b (n + 1)) h0
+
+/-- (G1) **trapezoid error for a merely continuous `f`**, in terms of a modulus of continuity:
+if `|f v - f u| ≤ ω` whenever `|v - u| ≤ δ` (`u, v ∈ S`), then on every grid in `S` (any
+orientation) with mesh `≤ δ`, `|trapz - ∫| ≤ ω · ∑|x_{i+1} - x_i|`. -/
+theorem C14_trapz_error_continuous {S : Set ℝ} (hS : Convex ℝ S) {f : ℝ → ℝ}
+    (hc : ContinuousOn f S) {ω δ : ℝ}
+    (hmod : ∀ u ∈ S, ∀ v ∈ S, |v - u| ≤ δ → |f v - f u| ≤ ω)
+    (x : List ℝ) (hne : x ≠ []) (hmem : ∀ t ∈ x, t ∈ S) (hmesh : mesh x ≤ δ) :
+    |trapz x (x.map f) - ∫ t in (x.head hne)..(x.getLast hne), f t| ≤ ω * pathLen x := by
+  rw [trapz_self_map_eq_pairSum]
+  have hseg : ∀ u ∈ S, ∀ v ∈ S, |v - u| ≤ δ →
+      |(v - u) * ((f u + f v) / 2) - ∫ s in u..v, f s| ≤ ω * |v - u| := by
+    intro u hu v hv huv
+    have hcs : ∀ s ∈ Set.uIcc u v, |(f u + f v) / 2 - f s| ≤ ω := by
+      intro s hs
+      have hsS : s ∈ S := hS.ordConnected.uIcc_subset hu hv hs
+      have h1 : |s - u| ≤ |v - u| := Set.abs_sub_left_of_mem_uIcc hs
+      have h2 : |v - s| ≤ |v - u| := Set.abs_sub_right_of_mem_uIcc hs
+      have e1 := hmod s hsS u hu (by rw [abs_sub_comm]; linarith)
+      have e2 := hmod s hsS v hv (by linarith)
+      have : (f u + f v) / 2 - f s = ((f u - f s) + (f v - f s)) / 2 := by ring
+      rw [this, abs_div, abs_two, div_le_iff₀ two_pos]
+      exact (abs_add_le _ _).trans (by linarith)
+    have := rs_seg_le hS (F := f) (ζ := fun _ => 1) (Z := fun t => t) hc continuousOn_const
+      (L := 1) (by intro s _; simp) (by intro u _ v _; simp) hu hv hcs
+    simpa using this
+  exact pairSum_err_le hS hc hseg x hne hmem hmesh
+
+/-- (G1) **convergence for a merely continuous `f`**: along any family of monotone grids in
+`[a, b]` from `α` to `β` (either orientation: `α = a, β = b` or `α = b, β = a`, or any sub-range)
+whose mesh tends to 0, `integrate_column` of the samples tends to `∫_α^β f`. -/
+theorem C14_trapz_tendsto_continuous {ι : Type*} {l : Filter ι} {a b : ℝ} {f : ℝ → ℝ}
+    (hc : ContinuousOn f (Set.Icc a b)) (X : ι → List ℝ) (α β : ℝ) (hne : ∀ i, X i ≠ [])
+    (hmem : ∀ i, ∀ t ∈ X i, t ∈ Set.Icc a b)
+    (hmono : ∀ i, (X i).IsChain (· ≤ ·) ∨ (X i).IsChain (· ≥ ·))
+    (ha : ∀ i, (X i).head (hne i) = α) (hb : ∀ i, (X i).getLast (hne i) = β)
+    (hmesh : Tendsto (fun i => mesh (X i)) l (𝓝 0)) :
+    Tendsto (fun i => trapz (X i) ((X i).map f)) l (𝓝 (∫ t in α..β, f t)) := by
+  have := rs_tendsto (F := f) (ζ := fun _ => 1) (Z := fun t => t)
+    (m := fun u v => (f u + f v) / 2) hc continuousOn_const (by intro u _ v _; simp)
+    (mean_consistent hc) X α β hne hmem hmono ha hb hmesh
+  simp only [trapz_self_map_eq_pairSum]
+  simpa using this
+
+/-- … in particular on `linspace(a, b, n+1)` (increasing) and on `linspace(b, a, n+1)`
+(decreasing; the integral is taken in the direction of the grid) -/
+theorem C14_trapz_tendsto_continuous_linspace {a b : ℝ} (hab : a ≤ b) {f : ℝ → ℝ}
+    (hc : ContinuousOn f (Set.Icc a b)) :
+    Tendsto (fun n : ℕ => trapz (linspace a b (n + 1)) ((linspace a b (n + 1)).map f)) atTop
+        (𝓝 (∫ t in a..b, f t)) ∧
+      Tendsto (fun n : ℕ => trapz (linspace b a (n + 1)) ((linspace b a (n + 1)).map f)) atTop
+        (𝓝 (∫ t in b..a, f t)) := by
+  constructor
+  · refine C14_trapz_tendsto_continuous hc (fun n => linspace a b (n + 1)) a b
+      (fun n => linspace_ne_nil _ _ _) ?_ (fun n => Or.inl (linspace_chain_le a b hab _))
+      (fun n => linspace_head _ _ _) (fun n => linspace_getLast _ _ _ (Nat.succ_ne_zero n))
+      (linspace_mesh_tendsto a b)
+    intro n t ht
+    have := chain_le_bounds _ (linspace_ne_nil a b (n + 1)) (linspace_chain_le a b hab _) t ht
+    rwa [linspace_head, linspace_getLast _ _ _ (Nat.succ_ne_zero n)] at this
+  · refine C14_trapz_tendsto_continuous hc (fun n => linspace b a (n + 1)) b a
+      (fun n => linspace_ne_nil _ _ _) ?_ (fun n => Or.inr (linspace_chain_ge b a hab _))
+      (fun n => linspace_head _ _ _) (fun n => linspace_getLast _ _ _ (Nat.succ_ne_zero n))
+      (linspace_mesh_tendsto b a)
+    intro n t ht
+    have := chain_ge_bounds _ (linspace_ne_nil b a (n + 1)) (linspace_chain_ge b a hab _) t ht
+    rwa [linspace_head, linspace_getLast _ _ _ (Nat.succ_ne_zero n)] at this
+
+/-- non-vacuity of G1: `f = |t - 1|` (continuous, not differentiable) -/
+example : Tendsto (fun n : ℕ => trapz (linspace 0 3 (n + 1)) ((linspace 0 3 (n + 1)).map fun t => |t - 1|))
+    atTop (𝓝 (∫ t in (0:ℝ)..3, |t - 1|)) :=
+  (C14_trapz_tendsto_continuous_linspace (f := fun t => |t - 1|) (by norm_num)
+    (by fun_prop)).1
+
+/-- members of a non-increasing grid from `p0` down to `p1` lie in `[p1, p0]` -/
+private theorem mem_Icc_of_dec (p : List ℝ) (hne : p ≠ []) (hdec : p.IsChain (· ≥ ·)) (p0 p1 : ℝ)
+    (ha : p.head hne = p0) (hb : p.getLast hne = p1) : ∀ t ∈ p, t ∈ Set.Icc p1 p0 := by
+  intro t ht
+  have := chain_ge_bounds p hne hdec t ht
+  rwa [ha, hb] at this
+
+/-- (G3) **`pressure2height` with an arbitrary continuous temperature profile `Tf(p) > 0`**
+(dry air, `ρ = p/(R_d·T)`, layer-mean density): along any family of non-increasing pressure grids
+from `p0` down to `p1 > 0` whose spacing tends to 0, the top height tends to the hydrostatic
+integral `∫_{p1}^{p0} R_d·Tf(p)/(g·p) dp`. -/
+theorem C14_p2h_tendsto_general {ι : Type*} {l : Filter ι} (p0 p1 : ℝ) (hp1 : 0 < p1)
+    (hp : p1 ≤ p0) (Tf : ℝ → ℝ) (hT : ContinuousOn Tf (Set.Icc p1 p0)) (hTpos : ∀ s ∈ Set.Icc p1 p0, 0 < Tf s)
+    (P : ι → List ℝ) (hne : ∀ i, P i ≠ []) (hdec : ∀ i, (P i).IsChain (· ≥ ·))
+    (ha : ∀ i, (P i).head (hne i) = p0) (hb : ∀ i, (P i).getLast (hne i) = p1)
+    (hmesh : Tendsto (fun i => mesh (P i)) l (𝓝 0)) :
+    Tendsto (fun i => (p2h TR.density g₀ (P i) ((P i).map Tf)).getLast (p2h_ne_nil _ _ _ _)) l
+      (𝓝 (∫ s in p1..p0, Rd * Tf s / (g₀ * s))) := by
+  have hRd := C.gas_constant_dry_air_pos
+  have hg := C.earth_standard_gravity_pos
+  have hspos : ∀ s ∈ Set.Icc p1 p0, 0 < s := fun s hs => lt_of_lt_of_le hp1 hs.1
+  have hρ : ContinuousOn (fun s => s / (Rd * Tf s)) (Set.Icc p1 p0) :=
+    continuousOn_id.div (continuousOn_const.mul hT)
+      (fun s hs => (mul_pos hRd (hTpos s hs)).ne')
+  have hρpos : ∀ s ∈ Set.Icc p1 p0, 0 < s / (Rd * Tf s) :=
+    fun s hs => div_pos (hspos s hs) (mul_pos hRd (hTpos s hs))
+  have hF : ContinuousOn (fun s => -1 / (s / (Rd * Tf s) * g₀)) (Set.Icc p1 p0) :=
+    continuousOn_const.div (hρ.mul continuousOn_const)
+      (fun s hs => (mul_pos (hρpos s hs) hg).ne')
+  have key := rs_tendsto (F := fun s => -1 / (s / (Rd * Tf s) * g₀)) (ζ := fun _ => 1)
+    (Z := fun t => t)
+    (m := fun u v => -1 / ((u / (Rd * Tf u) + v / (Rd * Tf v)) / 2 * g₀)) hF continuousOn_const
+    (by intro u _ v _; simp) (invmean_consistent hg hρ hρpos) P p0 p1 hne
+    (fun i => mem_Icc_of_dec (P i) (hne i) (hdec i) p0 p1 (ha i) (hb i))
+    (fun i => Or.inr (hdec i)) ha hb hmesh
+  have hlim : ∫ s in p0..p1, -1 / (s / (Rd * Tf s) * g₀) * 1 = ∫ s in p1..p0, Rd * Tf s / (g₀ * s) := by
+    rw [intervalIntegral.integral_symm, ← intervalIntegral.integral_neg]
+    apply intervalIntegral.integral_congr
+    intro s hs
+    rw [Set.uIcc_of_le hp] at hs
+    have h1 := hspos s hs
+    have h2 := hTpos s hs
+    simp only
+    field_simp
+  rw [hlim] at key
+  refine key.congr (fun i => ?_)
+  rw [p2h_getLast_eq_pairSum, nf_density]
+
+/-! ### (G2) arbitrary continuous profiles `vmr = X(p) ∈ [0, 1)`, `T = Tf(p) > 0` on `[p1, p0]` -/
+
+private theorem moist_M_pos (x : ℝ) (hx0 : 0 ≤ x) (hx1 : x < 1) : 0 < (1 - x) * Md + x * Mw := by
+  have hMd := C.molar_mass_dry_air_pos
+  have hMw := C.molar_mass_water_pos
+  have : 0 < (1 - x) * Md := mul_pos (by linarith) hMd
+  have : 0 ≤ x * Mw := mul_nonneg hx0 hMw.le
+  linarith
+
+private theorem q_comp_continuousOn (p0 p1 : ℝ) (X : ℝ → ℝ) (hX : ContinuousOn X (Set.Icc p1 p0))
+    (hXr : ∀ s ∈ Set.Icc p1 p0, 0 ≤ X s ∧ X s < 1) :
+    ContinuousOn (fun s => TR.vmr2specific_humidity (X s)) (Set.Icc p1 p0) := by
+  have hMd := C.molar_mass_dry_air_pos
+  have hMw := C.molar_mass_water_pos
+  have e : (fun s => TR.vmr2specific_humidity (X s)) = fun s => X s / ((1 - X s) * Md / Mw + X s) := by
+    funext s; exact nf_x2q _
+  rw [e]
+  refine hX.div ((((continuousOn_const.sub hX).mul continuousOn_const).div_const _).add hX) ?_
+  intro s hs
+  have h := hXr s hs
+  have : 0 < (1 - X s) * Md / Mw := div_pos (mul_pos (by linarith) hMd) hMw
+  linarith
+
+/-- the hydrostatic form on sampled profiles tends to `(1/g)·∫_{p1}^{p0} q(X(p)) dp` -/
+theorem C14_iwv_hydro_tendsto_general {ι : Type*} {l : Filter ι} (p0 p1 : ℝ)
+    (X : ℝ → ℝ) (hX : ContinuousOn X (Set.Icc p1 p0))
+    (hXr : ∀ s ∈ Set.Icc p1 p0, 0 ≤ X s ∧ X s < 1)
+    (P : ι → List ℝ) (hne : ∀ i, P i ≠ []) (hdec : ∀ i, (P i).IsChain (· ≥ ·))
+    (ha : ∀ i, (P i).head (hne i) = p0) (hb : ∀ i, (P i).getLast (hne i) = p1)
+    (hmesh : Tendsto (fun i => mesh (P i)) l (𝓝 0)) :
+    Tendsto (fun i => iwvHydro TR.vmr2specific_humidity g₀ ((P i).map X) (P i)) l
+      (𝓝 ((∫ s in p1..p0, TR.vmr2specific_humidity (X s)) / g₀)) := by
+  have key := C14_trapz_tendsto_continuous (q_comp_continuousOn p0 p1 X hX hXr) P p0 p1 hne
+    (fun i => mem_Icc_of_dec (P i) (hne i) (hdec i) p0 p1 (ha i) (hb i))
+    (fun i => Or.inr (hdec i)) ha hb hmesh
+  have := (key.neg).div_const g₀
+  rw [← intervalIntegral.integral_symm] at this
+  refine this.congr (fun i => ?_)
+  simp only [iwvHydro, List.map_map]
+  rfl
+
+/-- the general form on sampled profiles, with `z_i = Z(p_i)` the hydrostatic height of the moist
+column `Z(p) = ∫_p^{p0} R*/M_m(X)·Tf/(g·s) ds`, tends to `(1/g)·∫_{p1}^{p0} X·(R*/M_m(X))/R_v dp`
+(`= ∫ vmr·ρ_v dz` after the substitution `dz = -R_m T/(g p) dp`; no relation between the gas
+constants is used here) -/
+theorem C14_iwv_general_tendsto_general {ι : Type*} {l : Filter ι} (Rstar p0 p1 : ℝ)
+    (hp1 : 0 < p1) (hp : p1 ≤ p0)
+    (X Tf Z : ℝ → ℝ) (hX : ContinuousOn X (Set.Icc p1 p0)) (hT : ContinuousOn Tf (Set.Icc p1 p0))
+    (hXr : ∀ s ∈ Set.Icc p1 p0, 0 ≤ X s ∧ X s < 1) (hTpos : ∀ s ∈ Set.Icc p1 p0, 0 < Tf s)
+    (hZ : ∀ s ∈ Set.Icc p1 p0,
+      Z s = ∫ t in s..p0, Rstar / ((1 - X t) * Md + X t * Mw) * Tf t / (g₀ * t))
+    (P : ι → List ℝ) (hne : ∀ i, P i ≠ []) (hdec : ∀ i, (P i).IsChain (· ≥ ·))
+    (ha : ∀ i, (P i).head (hne i) = p0) (hb : ∀ i, (P i).getLast (hne i) = p1)
+    (hmesh : Tendsto (fun i => mesh (P i)) l (𝓝 0)) :
+    Tendsto (fun i => iwvGeneral (fun p T => p / (Rv * T)) ((P i).map X) (P i) ((P i).map Tf)
+        ((P i).map Z)) l
+      (𝓝 ((∫ s in p1..p0, X s * (Rstar / ((1 - X s) * Md + X s * Mw)) / Rv) / g₀)) := by
+  have hRv := C.gas_constant_water_vapor_pos
+  have hg := C.earth_standard_gravity_pos
+  have hspos : ∀ s ∈ Set.Icc p1 p0, 0 < s := fun s hs => lt_of_lt_of_le hp1 hs.1
+  have hp0I : p0 ∈ Set.Icc p1 p0 := ⟨hp, le_rfl⟩
+  -- the integrand `Y = vmr·ρ_v` and the height density `r = -dZ/dp`
+  have hY : ContinuousOn (fun s => X s * (s / (Rv * Tf s))) (Set.Icc p1 p0) :=
+    hX.mul (continuousOn_id.div (continuousOn_const.mul hT)
+      (fun s hs => (mul_pos hRv (hTpos s hs)).ne'))
+  have hr : ContinuousOn (fun t => Rstar / ((1 - X t) * Md + X t * Mw) * Tf t / (g₀ * t))
+      (Set.Icc p1 p0) := by
+    refine ((continuousOn_const.div (((continuousOn_const.sub hX).mul continuousOn_const).add
+      (hX.mul continuousOn_const)) ?_).mul hT).div (continuousOn_const.mul continuousOn_id) ?_
+    · intro s hs; exact (moist_M_pos _ (hXr s hs).1 (hXr s hs).2).ne'
+    · intro s hs; exact (mul_pos hg (hspos s hs)).ne'
+  have hζ : ContinuousOn (fun t => -(Rstar / ((1 - X t) * Md + X t * Mw) * Tf t / (g₀ * t)))
+      (Set.Icc p1 p0) := hr.neg
+  have hZinc : ∀ u ∈ Set.Icc p1 p0, ∀ v ∈ Set.Icc p1 p0,
+      Z v - Z u = ∫ s in u..v, -(Rstar / ((1 - X s) * Md + X s * Mw) * Tf s / (g₀ * s)) := by
+    intro u hu v hv
+    have iuv := intervalIntegrable_of_mem (convex_Icc p1 p0) hr hu hv
+    have ivp := intervalIntegrable_of_mem (convex_Icc p1 p0) hr hv hp0I
+    rw [hZ u hu, hZ v hv, intervalIntegral.integral_neg,
+      ← intervalIntegral.integral_add_adjacent_intervals iuv ivp]
+    ring
+  have key := rs_tendsto (F := fun s => X s * (s / (Rv * Tf s)))
+    (ζ := fun t => -(Rstar / ((1 - X t) * Md + X t * Mw) * Tf t / (g₀ * t))) (Z := Z)
+    (m := fun u v => (X u * (u / (Rv * Tf u)) + X v * (v / (Rv * Tf v))) / 2) hY hζ hZinc
+    (mean_consistent hY) P p0 p1 hne
+    (fun i => mem_Icc_of_dec (P i) (hne i) (hdec i) p0 p1 (ha i) (hb i))
+    (fun i => Or.inr (hdec i)) ha hb hmesh
+  have hlim : ∫ s in p0..p1, X s * (s / (Rv * Tf s))
+        * -(Rstar / ((1 - X s) * Md + X s * Mw) * Tf s / (g₀ * s))
+      = (∫ s in p1..p0, X s * (Rstar / ((1 - X s) * Md + X s * Mw)) / Rv) / g₀ := by
+    rw [intervalIntegral.integral_symm, ← intervalIntegral.integral_neg,
+      ← intervalIntegral.integral_div]
+    apply intervalIntegral.integral_congr
+    intro s hs
+    rw [Set.uIcc_of_le hp] at hs
+    have h1 := hspos s hs
+    have h2 := hTpos s hs
+    simp only
+    field_simp
+  rw [hlim] at key
+  refine key.congr (fun i => ?_)
+  simp only [iwvGeneral]
+  have h := zipWith_sampled_profile (fun p T => p / (Rv * T)) X Tf (P i)
+  beta_reduce at h
+  rw [h, trapz_map_eq_pairSum]
+
+/-- pointwise continuum identity: `x·R_m(x)/R_v = q(x)·R*/(R_v·M_w)` -/
+private theorem xRm_eq_q (Rstar x : ℝ) (hx0 : 0 ≤ x) (hx1 : x < 1) :
+    x * (Rstar / ((1 - x) * Md + x * Mw)) / Rv
+      = TR.vmr2specific_humidity x * (Rstar / (Rv * Mw)) := by
+  have hRv := C.gas_constant_water_vapor_pos
+  have hMw := C.molar_mass_water_pos
+  have hMm := moist_M_pos x hx0 hx1
+  rw [nf_x2q]
+  have e1 : (1 - x) * Md / Mw + x = ((1 - x) * Md + x * Mw) / Mw := by field_simp
+  rw [e1]
+  field_simp
+
+/-- the two limits are related by the constant factor `R*/(R_v·M_w)` -/
+theorem C14_iwv_limits_ratio (Rstar p0 p1 : ℝ) (hp : p1 ≤ p0) (X : ℝ → ℝ)
+    (hXr : ∀ s ∈ Set.Icc p1 p0, 0 ≤ X s ∧ X s < 1) :
+    (∫ s in p1..p0, X s * (Rstar / ((1 - X s) * Md + X s * Mw)) / Rv) / g₀
+      = (∫ s in p1..p0, TR.vmr2specific_humidity (X s)) / g₀ * (Rstar / (Rv * Mw)) := by
+  have : ∫ s in p1..p0, X s * (Rstar / ((1 - X s) * Md + X s * Mw)) / Rv
+      = ∫ s in p1..p0, TR.vmr2specific_humidity (X s) * (Rstar / (Rv * Mw)) := by
+    apply intervalIntegral.integral_congr
+    intro s hs
+    rw [Set.uIcc_of_le hp] at hs
+    exact xRm_eq_q Rstar (X s) (hXr s hs).1 (hXr s hs).2
+  rw [this, intervalIntegral.integral_mul_const]
+  ring
+
+/-- (G2) **the hydrostatic and the general form converge to the same value for every admissible
+profile**: `vmr = X(p) ∈ [0,1)` and `T = Tf(p) > 0` continuous on `[p1, p0]`, `z = Z(p)` the
+hydrostatic height of the moist column, `R_v·M_w = R*`.  Along any family of non-increasing
+pressure grids from `p0` down to `p1 > 0` whose spacing tends to 0, both forms of
+`integrate_water_vapor` tend to `(1/g)·∫_{p1}^{p0} q(X(p)) dp`. -/
+theorem C14_iwv_forms_tendsto_general {ι : Type*} {l : Filter ι} (Rstar p0 p1 : ℝ)
+    (hR : Rv * Mw = Rstar) (hp1 : 0 < p1) (hp : p1 ≤ p0)
+    (X Tf Z : ℝ → ℝ) (hX : ContinuousOn X (Set.Icc p1 p0)) (hT : ContinuousOn Tf (Set.Icc p1 p0))
+    (hXr : ∀ s ∈ Set.Icc p1 p0, 0 ≤ X s ∧ X s < 1) (hTpos : ∀ s ∈ Set.Icc p1 p0, 0 < Tf s)
+    (hZ : ∀ s ∈ Set.Icc p1 p0,
+      Z s = ∫ t in s..p0, Rstar / ((1 - X t) * Md + X t * Mw) * Tf t / (g₀ * t))
+    (P : ι → List ℝ) (hne : ∀ i, P i ≠ []) (hdec : ∀ i, (P i).IsChain (· ≥ ·))
+    (ha : ∀ i, (P i).head (hne i) = p0) (hb : ∀ i, (P i).getLast (hne i) = p1)
+    (hmesh : Tendsto (fun i => mesh (P i)) l (𝓝 0)) :
+    Tendsto (fun i => iwvHydro TR.vmr2specific_humidity g₀ ((P i).map X) (P i)) l
+        (𝓝 ((∫ s in p1..p0, TR.vmr2specific_humidity (X s)) / g₀)) ∧
+      Tendsto (fun i => iwvGeneral (fun p T => p / (Rv * T)) ((P i).map X) (P i) ((P i).map Tf)
+          ((P i).map Z)) l
+        (𝓝 ((∫ s in p1..p0, TR.vmr2specific_humidity (X s)) / g₀)) := by
+  have hRv := C.gas_constant_water_vapor_pos
+  have hMw := C.molar_mass_water_pos
+  refine ⟨C14_iwv_hydro_tendsto_general p0 p1 X hX hXr P hne hdec ha hb hmesh, ?_⟩
+  have := C14_iwv_general_tendsto_general Rstar p0 p1 hp1 hp X Tf Z hX hT hXr hTpos hZ P hne hdec
+    ha hb hmesh
+  rwa [C14_iwv_limits_ratio Rstar p0 p1 hp X hXr, ← hR, div_self (by positivity), mul_one] at this
+
+/-- … with the rounded constants (`|R* - R_v·M_w| ≤ ε·R_v·M_w`, `ε = 10⁻¹⁶` for the doubles): the
+limit of the general form differs from the limit of the hydrostatic form by at most `ε` times
+the latter. -/
+theorem C14_iwv_limits_approx (Rstar ε p0 p1 : ℝ) (hR : |Rstar - Rv * Mw| ≤ ε * (Rv * Mw))
+    (hp : p1 ≤ p0) (X : ℝ → ℝ) (hXr : ∀ s ∈ Set.Icc p1 p0, 0 ≤ X s ∧ X s < 1) :
+    |(∫ s in p1..p0, X s * (Rstar / ((1 - X s) * Md + X s * Mw)) / Rv) / g₀
+        - (∫ s in p1..p0, TR.vmr2specific_humidity (X s)) / g₀|
+      ≤ ε * ((∫ s in p1..p0, TR.vmr2specific_humidity (X s)) / g₀) := by
+  have hRv := C.gas_constant_water_vapor_pos
+  have hMw := C.molar_mass_water_pos
+  have hg := C.earth_standard_gravity_pos
+  have hRM : 0 < Rv * Mw := by positivity
+  have hnn : 0 ≤ (∫ s in p1..p0, TR.vmr2specific_humidity (X s)) / g₀ := by
+    apply div_nonneg _ hg.le
+    apply intervalIntegral.integral_nonneg hp
+    intro s hs
+    exact q_nonneg (X s) (hXr s hs).1 (hXr s hs).2
+  have hrho : |Rstar / (Rv * Mw) - 1| ≤ ε := by
+    have e : Rstar / (Rv * Mw) - 1 = (Rstar - Rv * Mw) / (Rv * Mw) := by field_simp
+    rw [e, abs_div, abs_of_pos hRM, div_le_iff₀ hRM]
+    exact hR
+  rw [C14_iwv_limits_ratio Rstar p0 p1 hp X hXr]
+  have e : (∫ s in p1..p0, TR.vmr2specific_humidity (X s)) / g₀ * (Rstar / (Rv * Mw))
+      - (∫ s in p1..p0, TR.vmr2specific_humidity (X s)) / g₀
+      = (∫ s in p1..p0, TR.vmr2specific_humidity (X s)) / g₀ * (Rstar / (Rv * Mw) - 1) := by ring
+  rw [e, abs_mul, abs_of_nonneg hnn, mul_comm ε]
+  exact mul_le_mul_of_nonneg_left hrho hnn
+
+/-- the hydrostatic height of the moist column used above vanishes at `p0` and strictly
+decreases with pressure (so `z = Z(p)` is a strictly increasing height grid on a strictly
+decreasing pressure grid) -/
+theorem C14_moist_height_props (Rstar p0 p1 : ℝ) (hRs : 0 < Rstar) (hp1 : 0 < p1) (hp : p1 ≤ p0)
+    (X Tf Z : ℝ → ℝ) (hX : ContinuousOn X (Set.Icc p1 p0)) (hT : ContinuousOn Tf (Set.Icc p1 p0))
+    (hXr : ∀ s ∈ Set.Icc p1 p0, 0 ≤ X s ∧ X s < 1) (hTpos : ∀ s ∈ Set.Icc p1 p0, 0 < Tf s)
+    (hZ : ∀ s ∈ Set.Icc p1 p0,
+      Z s = ∫ t in s..p0, Rstar / ((1 - X t) * Md + X t * Mw) * Tf t / (g₀ * t)) :
+    Z p0 = 0 ∧ StrictAntiOn Z (Set.Icc p1 p0) := by
+  have hg := C.earth_standard_gravity_pos
+  have hspos : ∀ s ∈ Set.Icc p1 p0, 0 < s := fun s hs => lt_of_lt_of_le hp1 hs.1
+  have hp0I : p0 ∈ Set.Icc p1 p0 := ⟨hp, le_rfl⟩
+  have hr : ContinuousOn (fun t => Rstar / ((1 - X t) * Md + X t * Mw) * Tf t / (g₀ * t))
+      (Set.Icc p1 p0) := by
+    refine ((continuousOn_const.div (((continuousOn_const.sub hX).mul continuousOn_const).add
+      (hX.mul continuousOn_const)) ?_).mul hT).div (continuousOn_const.mul continuousOn_id) ?_
+    · intro s hs; exact (moist_M_pos _ (hXr s hs).1 (hXr s hs).2).ne'
+    · intro s hs; exact (mul_pos hg (hspos s hs)).ne'
+  refine ⟨by rw [hZ p0 hp0I]; simp, ?_⟩
+  intro u hu v hv huv
+  have iuv := intervalIntegrable_of_mem (convex_Icc p1 p0) hr hu hv
+  have ivp := intervalIntegrable_of_mem (convex_Icc p1 p0) hr hv hp0I
+  rw [hZ u hu, hZ v hv, ← intervalIntegral.integral_add_adjacent_intervals iuv ivp]
+  have hpos : 0 < ∫ t in u..v, Rstar / ((1 - X t) * Md + X t * Mw) * Tf t / (g₀ * t) := by
+    apply intervalIntegral.intervalIntegral_pos_of_pos_on iuv _ huv
+    intro t ht
+    have htI : t ∈ Set.Icc p1 p0 := ⟨le_trans hu.1 ht.1.le, le_trans ht.2.le hv.2⟩
+    have := moist_M_pos _ (hXr t htI).1 (hXr t htI).2
+    have := hTpos t htI
+    have := hspos t htI
+    positivity
+  linarith
+
+/-- **the limit of the general form is the height integral `∫_0^{Z(p1)} vmr·ρ_v dz`**: for any
+continuous `G` on the height range that represents the integrand as a function of height
+(`G(Z(p)) = X(p)·p/(R_v·Tf(p))`), substitution `z = Z(p)`, `dz = -R_m T/(g p) dp` gives
+`∫_0^{Z p1} G dz = (1/g)·∫_{p1}^{p0} X·(R*/M_m(X))/R_v dp` — the limit in
+`C14_iwv_general_tendsto_general`. -/
+theorem C14_iwv_general_limit_as_height_integral (Rstar p0 p1 : ℝ) (hp1 : 0 < p1) (hp : p1 ≤ p0)
+    (X Tf Z G : ℝ → ℝ) (hX : ContinuousOn X (Set.Icc p1 p0)) (hT : ContinuousOn Tf (Set.Icc p1 p0))
+    (hXr : ∀ s ∈ Set.Icc p1 p0, 0 ≤ X s ∧ X s < 1) (hTpos : ∀ s ∈ Set.Icc p1 p0, 0 < Tf s)
+    (hZ : ∀ s ∈ Set.Icc p1 p0,
+      Z s = ∫ t in s..p0, Rstar / ((1 - X t) * Md + X t * Mw) * Tf t / (g₀ * t))
+    (hG : ContinuousOn G (Z '' Set.Icc p1 p0))
+    (hGY : ∀ s ∈ Set.Icc p1 p0, G (Z s) = X s * (s / (Rv * Tf s))) :
+    ∫ z in (0:ℝ)..Z p1, G z
+      = (∫ s in p1..p0, X s * (Rstar / ((1 - X s) * Md + X s * Mw)) / Rv) / g₀ := by
+  have hg := C.earth_standard_gravity_pos
+  have hspos : ∀ s ∈ Set.Icc p1 p0, 0 < s := fun s hs => lt_of_lt_of_le hp1 hs.1
+  have hp0I : p0 ∈ Set.Icc p1 p0 := ⟨hp, le_rfl⟩
+  have hr : ContinuousOn (fun t => Rstar / ((1 - X t) * Md + X t * Mw) * Tf t / (g₀ * t))
+      (Set.Icc p1 p0) := by
+    refine ((continuousOn_const.div (((continuousOn_const.sub hX).mul continuousOn_const).add
+      (hX.mul continuousOn_const)) ?_).mul hT).div (continuousOn_const.mul continuousOn_id) ?_
+    · intro s hs; exact (moist_M_pos _ (hXr s hs).1 (hXr s hs).2).ne'
+    · intro s hs; exact (mul_pos hg (hspos s hs)).ne'
+  have hu : Set.uIcc p0 p1 = Set.Icc p1 p0 := Set.uIcc_of_ge hp
+  have hZc : ContinuousOn Z (Set.uIcc p0 p1) := by
+    rw [hu]
+    have h1 : ContinuousOn (fun x => ∫ t in x..p0, Rstar / ((1 - X t) * Md + X t * Mw) * Tf t / (g₀ * t))
+        (Set.uIcc p1 p0) :=
+      intervalIntegral.continuousOn_primitive_interval_left (by
+        rw [Set.uIcc_of_le hp]; exact hr.integrableOn_Icc)
+    rw [Set.uIcc_of_le hp] at h1
+    exact h1.congr (fun s hs => hZ s hs)
+  have hder : ∀ x ∈ Set.Ioo (min p0 p1) (max p0 p1), HasDerivWithinAt Z
+      (-(Rstar / ((1 - X x) * Md + X x * Mw) * Tf x / (g₀ * x))) (Set.Ioi x) x := by
+    intro x hx
+    rw [min_eq_right hp, max_eq_left hp] at hx
+    have hxI : x ∈ Set.Icc p1 p0 := Set.Ioo_subset_Icc_self hx
+    have hnh : Set.Icc p1 p0 ∈ nhds x := Icc_mem_nhds hx.1 hx.2
+    have h1 := intervalIntegral.integral_hasDerivAt_left (a := x) (b := p0)
+      (f := fun t => Rstar / ((1 - X t) * Md + X t * Mw) * Tf t / (g₀ * t))
+      (intervalIntegrable_of_mem (convex_Icc p1 p0) hr hxI hp0I)
+      ((hr.mono Set.Ioo_subset_Icc_self).stronglyMeasurableAtFilter isOpen_Ioo x hx)
+      (hr.continuousAt hnh)
+    have h2 : HasDerivAt Z (-(Rstar / ((1 - X x) * Md + X x * Mw) * Tf x / (g₀ * x))) x := by
+      refine h1.congr_of_eventuallyEq ?_
+      filter_upwards [hnh] with s hs using hZ s hs
+    exact h2.hasDerivWithinAt
+  have hsub := intervalIntegral.integral_comp_mul_deriv'' (a := p0) (b := p1) (f := Z)
+    (f' := fun t => -(Rstar / ((1 - X t) * Md + X t * Mw) * Tf t / (g₀ * t))) (g := G) hZc hder
+    (by rw [hu]; exact hr.neg) (by rw [hu]; exact hG)
+  have hZ0 : Z p0 = 0 := by rw [hZ p0 hp0I]; simp
+  rw [hZ0] at hsub
+  rw [← hsub]
+  have hcongr : ∫ x in p0..p1, (G ∘ Z) x * -(Rstar / ((1 - X x) * Md + X x * Mw) * Tf x / (g₀ * x))
+      = ∫ s in p0..p1, X s * (s / (Rv * Tf s))
+          * -(Rstar / ((1 - X s) * Md + X s * Mw) * Tf s / (g₀ * s)) := by
+    apply intervalIntegral.integral_congr
+    intro s hs
+    rw [hu] at hs
+    simp only [Function.comp, hGY s hs]
+  rw [hcongr, intervalIntegral.integral_symm, ← intervalIntegral.integral_neg,
+    ← intervalIntegral.integral_div]
+  apply intervalIntegral.integral_congr
+  intro s hs
+  rw [Set.uIcc_of_le hp] at hs
+  have h1 := hspos s hs
+  have h2 := hTpos s hs
+  simp only
+  field_simp
+
+/-! ### non-vacuity of (G): `vmr(p) = 0.01·p/p0`, `T(p) = 200 + 80·p/p0`, `p0 = 10⁵`, `p1 = 3·10⁴`,
+grids `linspace(p0, p1, n+1)` -/
+
+private theorem ex_lin_family (p0 p1 : ℝ) (hp : p1 ≤ p0) :
+    (∀ n : ℕ, (linspace p0 p1 (n + 1)).IsChain (· ≥ ·)) ∧
+    (∀ n : ℕ, (linspace p0 p1 (n + 1)).head (linspace_ne_nil _ _ _) = p0) ∧
+    (∀ n : ℕ, (linspace p0 p1 (n + 1)).getLast (linspace_ne_nil _ _ _) = p1) :=
+  ⟨fun _ => linspace_chain_ge p0 p1 hp _, fun _ => linspace_head _ _ _,
+    fun n => linspace_getLast _ _ _ (Nat.succ_ne_zero n)⟩
+
+example := C14_iwv_forms_tendsto_general (l := atTop) (Rv * Mw) 100000 30000 rfl (by norm_num)
+  (by norm_num) (fun p => 1 / 100 * p / 100000) (fun p => 200 + 80 * p / 100000)
+  (fun s => ∫ t in s..100000, Rv * Mw / ((1 - 1 / 100 * t / 100000) * Md
+      + 1 / 100 * t / 100000 * Mw) * (200 + 80 * t / 100000) / (g₀ * t))
+  (by fun_prop) (by fun_prop)
+  (fun s hs => ⟨by have := hs.1; positivity, by have := hs.2; linarith⟩)
+  (fun s hs => by have := hs.1; positivity) (fun s _ => rfl)
+  (fun n : ℕ => linspace 100000 30000 (n + 1)) (fun n => linspace_ne_nil _ _ _)
+  (ex_lin_family 100000 30000 (by norm_num)).1 (ex_lin_family 100000 30000 (by norm_num)).2.1
+  (ex_lin_family 100000 30000 (by norm_num)).2.2 (linspace_mesh_tendsto _ _)
+
+example := C14_p2h_tendsto_general (l := atTop) 100000 30000 (by norm_num) (by norm_num)
+  (fun p => 200 + 80 * p / 100000) (by fun_prop) (fun s hs => by have := hs.1; positivity)
+  (fun n : ℕ => linspace 100000 30000 (n + 1)) (fun n => linspace_ne_nil _ _ _)
+  (ex_lin_family 100000 30000 (by norm_num)).1 (ex_lin_family 100000 30000 (by norm_num)).2.1
+  (ex_lin_family 100000 30000 (by norm_num)).2.2 (linspace_mesh_tendsto _ _)
+
+/-- non-vacuity of `C14_iwv_general_limit_as_height_integral`: the isothermal well-mixed column of
+(R2), where `Z(p) = H·ln(p0/p)` and the integrand as a function of height is
+`G(z) = x0·p0·exp(-z/H)/(R_v·T0)` -/
+example : ∫ z in (0:ℝ)..(Rv * Mw / ((1 - 1 / 100) * Md + 1 / 100 * Mw) * 250 / g₀) * Real.log (100000 / 30000),
+      1 / 100 * (100000 * Real.exp (-z / (Rv * Mw / ((1 - 1 / 100) * Md + 1 / 100 * Mw) * 250 / g₀)) / (Rv * 250))
+    = (∫ _s in (30000:ℝ)..100000, 1 / 100 * (Rv * Mw / ((1 - 1 / 100) * Md + 1 / 100 * Mw)) / Rv) / g₀ := by
+  have hRv := C.gas_constant_water_vapor_pos
+  have hMw := C.molar_mass_water_pos
+  have hg := C.earth_standard_gravity_pos
+  have hH : 0 < Rv * Mw / ((1 - 1 / 100) * Md + 1 / 100 * Mw) * 250 / g₀ :=
+    moist_H_pos (Rv * Mw) (1 / 100) 250 (by positivity) (by norm_num) (by norm_num) (by norm_num)
+  refine C14_iwv_general_limit_as_height_integral (Rv * Mw) 100000 30000 (by norm_num) (by norm_num)
+    (fun _ => 1 / 100) (fun _ => 250)
+    (fun s => (Rv * Mw / ((1 - 1 / 100) * Md + 1 / 100 * Mw) * 250 / g₀) * Real.log (100000 / s))
+    (fun z => 1 / 100 * (100000 * Real.exp (-z / (Rv * Mw / ((1 - 1 / 100) * Md + 1 / 100 * Mw) * 250 / g₀)) / (Rv * 250)))
+    continuousOn_const continuousOn_const (fun s _ => ⟨by norm_num, by norm_num⟩)
+    (fun s _ => by norm_num) ?_ (by fun_prop) ?_
+  · intro s hs
+    have hs0 : 0 < s := lt_of_lt_of_le (by norm_num) hs.1
+    have e : (fun t : ℝ => Rv * Mw / ((1 - 1 / 100) * Md + 1 / 100 * Mw) * 250 / (g₀ * t))
+        = fun t => (Rv * Mw / ((1 - 1 / 100) * Md + 1 / 100 * Mw) * 250 / g₀) * t⁻¹ := by
+      funext t; rw [div_mul_eq_div_div, div_eq_mul_inv _ t]
+    rw [e, intervalIntegral.integral_const_mul, integral_inv_of_pos hs0 (by norm_num)]
+  · intro s hs
+    have hs0 : 0 < s := lt_of_lt_of_le (by norm_num) hs.1
+    rw [expProfile_at_logheight 100000 _ s (by norm_num) hs0 hH.ne']
+
 /-! ## Scope
 Everything above is about the real-number model (`Col.*` over `ℝ` with the translated `TR.*`):
 rounding errors of the floating-point evaluation are not part of these statements (the C14 check
 ties the `Float` instantiation of the same `Col.*` definitions to the code numerically).
-`C14_iwv_forms_agree`/`…_tendsto` assume the exact relation `R_v·M_w = R*`; with the generated
-double constants it holds only up to `10⁻¹⁶` (`C14_gas_constants_consistent`), which is what
-`C14_iwv_forms_agree_approx`/`C14_iwv_forms_eventually_approx` account for.
+`C14_iwv_forms_agree`/`…_tendsto`/`…_tendsto_general` assume the exact relation `R_v·M_w = R*`;
+with the generated double constants it holds only up to `10⁻¹⁶` (`C14_gas_constants_consistent`),
+which is what `C14_iwv_forms_agree_approx`/`C14_iwv_forms_eventually_approx`/
+`C14_iwv_limits_approx` account for.
+The (G) theorems give convergence without a rate (only continuity is assumed); rates are in
+(R1)–(R3) (`O(mesh²)` for `C²`-type integrands resp. the isothermal well-mixed column) and in
+`C14_trapz_error_continuous` (modulus of continuity).  Profiles in (G2)/(G3) are functions of
+pressure sampled on the grid (`vmr_i = X(p_i)`, `T_i = Tf(p_i)`, `z_i = Z(p_i)`); grids are
+non-increasing in pressure from `p0` to `p1 > 0`.
 -/
 
 assert_axioms C14_trapz_error C14_trapz_error_monotone C14_trapz_error_lipschitz_deriv
@@ -649,3 +1136,7 @@ assert_axioms C14_trapz_error C14_trapz_error_monotone C14_trapz_error_lipschitz
   C14_iwv_forms_tendsto_linspace C14_iwv_forms_eventually_approx
   C14_p2h_isothermal_layers C14_p2h_isothermal_levels C14_p2h_isothermal_top
   C14_p2h_isothermal_tendsto C14_p2h_isothermal_tendsto_linspace
+  C14_trapz_error_continuous C14_trapz_tendsto_continuous C14_trapz_tendsto_continuous_linspace
+  C14_p2h_tendsto_general C14_iwv_hydro_tendsto_general C14_iwv_general_tendsto_general
+  C14_iwv_limits_ratio C14_iwv_forms_tendsto_general C14_iwv_limits_approx C14_moist_height_props
+  C14_iwv_general_limit_as_height_integral
